@@ -112,16 +112,19 @@ TEXT["C06"] = {
 _TRUST = ("Trusted: Lean kernel + Mathlib, axioms propext/Classical.choice/Quot.sound, translator, harness, compiled driver.")
 
 TEXT["C07"] = {
-    "text": "Proof (Lean 4), partial: over the model of PrimeSieve::nthPrime / negativeNthPrime with the Riemann-R "
-            "approximations, the bulk count and the generator's block policy as ARBITRARY functions: every n outside "
-            "[-pi(2^64), pi(2^64)] (INT64_MIN included) is rejected before any arithmetic on n, so the only negation is "
-            "performed on values whose negation fits int64; n = 0 is the first prime >= start; negative n without room "
-            "below start is rejected. The value clause (the correction walks return the n-th prime after / before start "
-            "whatever the estimate was) is decided by correspondence: the nth stream runs the real nth_prime (C and C++) "
-            "and the Lean model under two different approximation oracles against an independent oracle, with n and "
-            "start at the limits named in the property (0, +-1, +-max_n, INT64_MIN/MAX, start near 0 and near 2^64).",
+    "text": "Proof (Lean 4): over the model of PrimeSieve::nthPrime / negativeNthPrime with the Riemann-R "
+            "approximations, avgPrimeGap, isqrt and the generator's block policy as ARBITRARY functions (any 64-bit "
+            "values), and the bulk count given by the count model (C04): for every int64 n with |n| <= pi(2^64) and every "
+            "start < 2^64 the result is the n-th prime > start (n > 0), the first prime >= start (n = 0), the |n|-th prime "
+            "< start (n < 0), or an error exactly when that prime does not exist below 2^64 / above 0 - whichever of the "
+            "four correction walks the estimate selects (induction over the walks + counting lemmas relating primeSeq / "
+            "prevSeq to the number of primes of an interval). Every n outside [-pi(2^64), pi(2^64)] (INT64_MIN included) is "
+            "rejected before any arithmetic on n, so the only negation fits int64. Tied to src/nthPrime.cpp by the nth "
+            "stream: the real nth_prime (C and C++ API, 1 and 4 threads, several sieve sizes) and the Lean model under two "
+            "different approximation oracles against an independent oracle, with n and start at the limits named in the "
+            "property (0, +-1, +-max_n, INT64_MIN/MAX, start near 0 and near 2^64, prime starts at 1e16..1e19).",
     "design_ref": "DESIGN.md section 8 C07", "note": _IGEN + " RiemannR (long double) is outside the model: its results are inputs.",
-    "technique": "Lean 4 proof of the argument/guard logic for all int64 n + model/implementation correspondence for the walks"}
+    "technique": "Lean 4 proof (value theorem for all n, start and all approximation oracles; guard logic) + model/implementation correspondence"}
 TEXT["C08"] = {
     "text": "Proof (Lean 4): set_sieve_size/setSieveSize and set_num_threads/setNumThreads clamp every int to [16,8192] / "
             "[1,cores]; get_sieve_size() lies in [16,8192] KiB for EVERY cache description (zero, tiny, huge, garbage "
